@@ -176,3 +176,35 @@ Definition corr_std (tol : Q) (strikes paths : list Q) (df notional : Q) (n d : 
   let rows := std_engine (strike_payoff strikes) (tab_path paths) df notional n (repeat (repeat (9 # 7) d) n) in
   qrows_eqb rows erows && Qclose_list tol (std_price d rows) eprice &&
   (if Nat.ltb n 2 then true else Qclose_list tol (mc_var_repaired d rows) evar).
+
+(* ------------------------------------------------------------------ several pricings on ONE engine *)
+(* Engine.price called repeatedly on the same Engine object (possibly after changing configuration.mc_paths or
+   with another product): Engine.initialisation builds a NEW MCStatistics (np.empty((mc_paths, d)) = p_init) for
+   every pricing, so nothing of the previous pricing (`prev`) is kept. *)
+Record pricing := mkPricing {
+  p_payoff : Q -> list Q; p_path : nat -> Q; p_df : Q; p_notional : Q; p_n : nat; p_init : list (list Q) }.
+Definition reprice (prev : list (list Q)) (p : pricing) : list (list Q) :=
+  std_engine (p_payoff p) (p_path p) (p_df p) (p_notional p) (p_n p) (p_init p).
+Fixpoint price_seq (prev : list (list Q)) (ps : list pricing) : list (list (list Q)) :=
+  match ps with
+  | [] => []
+  | p :: r => let s := reprice prev p in s :: price_seq s r
+  end.
+
+Fixpoint all2s {A B : Type} (f : A -> B -> bool) (a : list A) (b : list B) : bool :=
+  match a, b with
+  | [], [] => true
+  | x :: a', y :: b' => f x y && all2s f a' b'
+  | _, _ => false
+  end.
+Definition corr_stats (tol : Q) (d n : nat) (rows : list (list Q)) (e : list (list Q) * list Q * list Q) : bool :=
+  let '(erows, eprice, evar) := e in
+  qrows_eqb rows erows && Qclose_list tol (std_price d rows) eprice &&
+  (if Nat.ltb n 2 then true else Qclose_list tol (mc_var_repaired d rows) evar).
+(* a sequence of pricings on one engine: (strikes, paths of this pricing, df, notional, n, observed) each *)
+Definition seq_case := (list Q * list Q * Q * Q * nat * (list (list Q) * list Q * list Q))%type.
+Definition corr_seq (tol : Q) (cs : list seq_case) : bool :=
+  let mk := fun c : seq_case => let '(ks, pth, df, no, n, _) := c in
+              mkPricing (strike_payoff ks) (tab_path pth) df no n (repeat (repeat (9 # 7) (length ks)) n) in
+  all2s (fun rows (c : seq_case) => let '(ks, _, _, _, n, e) := c in corr_stats tol (length ks) n rows e)
+        (price_seq [] (map mk cs)) cs.
